@@ -5,6 +5,7 @@ package shapes
 
 import (
 	"fmt"
+	"runtime"
 	"strings"
 
 	"github.com/RoaringBitmap/roaring/v2"
@@ -33,7 +34,7 @@ const (
 	Hi
 	H63
 	Full
-	Mid  // a single value in the middle (32768)
+	Mid // a single value in the middle (32768)
 	LowHalf
 	UpHalf
 	Hole // not a content atom: after building, remove 32768 and 0 (full chunk minus holes)
@@ -41,22 +42,22 @@ const (
 )
 
 var Atoms = [NAtoms]Atom{
-	Lo:     {"lo", 0, 1, 1, 1},
-	R62:    {"r62", 1, 1, 62, 1},
-	W:      {"w", 63, 1, 2, 1},
-	S4095:  {"s4095", 8192, 4095, 1, 2},
-	S1000a: {"s1000a", 30000, 513, 1, 2},
-	S1000b: {"s1000b", 30001, 512, 1, 2},
-	Big:    {"big", 20000, 1, 10000, 1},
-	R2047:  {"r2047", 40000, 2047, 3, 4},
-	R1:     {"r1", 40000 + 4*2047, 1, 3, 4},
-	Hi:     {"hi", 65535, 1, 1, 1},
-	H63:    {"h63", 65472, 1, 63, 1},
-	Full:   {"full", 0, 1, 65536, 1},
-	Mid:    {"mid", 32768, 1, 1, 1},
+	Lo:      {"lo", 0, 1, 1, 1},
+	R62:     {"r62", 1, 1, 62, 1},
+	W:       {"w", 63, 1, 2, 1},
+	S4095:   {"s4095", 8192, 4095, 1, 2},
+	S1000a:  {"s1000a", 30000, 513, 1, 2},
+	S1000b:  {"s1000b", 30001, 512, 1, 2},
+	Big:     {"big", 20000, 1, 10000, 1},
+	R2047:   {"r2047", 40000, 2047, 3, 4},
+	R1:      {"r1", 40000 + 4*2047, 1, 3, 4},
+	Hi:      {"hi", 65535, 1, 1, 1},
+	H63:     {"h63", 65472, 1, 63, 1},
+	Full:    {"full", 0, 1, 65536, 1},
+	Mid:     {"mid", 32768, 1, 1, 1},
 	LowHalf: {"lowhalf", 0, 1, 32768, 1},
 	UpHalf:  {"uphalf", 32768, 1, 32768, 1},
-	Hole:   {"hole", 0, 0, 0, 1},
+	Hole:    {"hole", 0, 0, 0, 1},
 }
 
 func (a Atom) IsRange() bool { return a.Count == 1 }
@@ -213,6 +214,10 @@ func (s Spec) Build() *Built {
 			panic("shapes: FrozenView: " + err.Error())
 		}
 		out.B, out.Bytes = nb, buf
+		// A frozen view keeps its container headers in memory the collector does not
+		// scan, so the view does not keep buf alive; keeping the buffer valid is the
+		// caller's documented duty. Tie the buffer's lifetime to the view here.
+		runtime.SetFinalizer(nb, func(*roaring.Bitmap) { runtime.KeepAlive(buf) })
 	}
 	return out
 }
